@@ -28,12 +28,18 @@ func doOp(c *Conn, o Op) (*Node, error) {
 }
 
 // canonical text of everything visible in databases 0..2, one entry per database
-func snapshotText(port int) ([]string, error) {
+func snapshotText(port int) (res []string, rerr error) {
 	c, err := dial(port)
 	if err != nil {
 		return nil, err
 	}
 	defer c.Close()
+	// a read that gets no reply (the emulator died or hangs) ends the snapshot with an error
+	defer func() {
+		if r := recover(); r != nil {
+			res, rerr = nil, fmt.Errorf("the emulator stopped answering while its contents were read (%v)", r)
+		}
+	}()
 	var out []string
 	for db := 0; db < 3; db++ {
 		if _, err := c.Do(3*time.Second, bs("SELECT", strconv.Itoa(db))...); err != nil {
@@ -60,6 +66,13 @@ func snapshotText(port int) ([]string, error) {
 			case "list":
 				v, _ := c.Do(3*time.Second, bs("LRANGE", k, "0", "-1")...)
 				sb.WriteString(canonNode(v))
+				// and from the tail (the back links of the list)
+				for _, ix := range []string{"-1", "-2", "-3"} {
+					e, _ := c.Do(3*time.Second, bs("LINDEX", k, ix)...)
+					if e != nil {
+						sb.WriteString(" " + ix + "=" + canonNode(e))
+					}
+				}
 			case "hash":
 				v, _ := c.Do(3*time.Second, bs("HGETALL", k)...)
 				p, _ := pairStrings(v.Elems)
@@ -97,7 +110,7 @@ func genC19Ops(g *Gen, n int) []Op {
 			k := g.key()
 			ops = append(ops, [](Op){mkOp(1, "SET", "", "value-of-the-empty-name", "EX", "3600"), mkOp(1, "RPUSH", "", "x", ""), mkOp(1, "SET", k, ""), mkOp(1, "RPUSH", k, "", "a", ""),
 				mkOp(1, "HSET", k, "", "empty-field", "f", ""), mkOp(1, "SADD", k, "", "m"), mkOp(1, "SET", k, "0"), mkOp(1, "HSET", "", "", ""), mkOp(1, "SADD", "", ""), mkOp(1, "DEL", ""),
-				mkOp(1, "SET", k, "\x00"), mkOp(1, "LSET", k, "0", "")}[g.r.Intn(12)])
+				mkOp(1, "SET", k, "\x00"), mkOp(1, "LSET", k, "0", ""), mkOp(1, "RPUSH", k, "e1", "e2", "e3", "e4", "e5"), mkOp(1, "LPUSH", "longlist", "x", "y", "z", "w")}[g.r.Intn(14)])
 		case x < 55:
 			// in-place changes, deletions and expiry changes are what a lazy dirty flag forgets
 			ops = append(ops, g.typedWrite(1, g.key()))
@@ -287,7 +300,14 @@ func c19Round(g *Gen, dir string, rc *c19Case, res *Result) (string, c19Case, er
 	}
 	after, err := snapshotText(p2)
 	if err != nil {
-		return "", cs, err
+		if !srv.Alive() {
+			return "after the restart the emulator process died while its restored contents were read: " + tail(srv.Stderr(), 600), cs, nil
+		}
+		return "after the restart: " + err.Error(), cs, nil
+	}
+	// what was loaded is well-formed inside: list links both ways, cached counts, dictionary counters
+	if why := integrityOf(srv, 1); why != "" {
+		return "after restart: " + why, cs, nil
 	}
 	for db := range nw {
 		if nw[db] != after[db] {
